@@ -25,7 +25,7 @@ def data_carriers(case):
         if case.get("as_time"):
             return ["nd_f8", "series"]
         cars = [c for c in cars if c not in ("nd_obj", "series_obj")]
-    if vals and all(v is None or (v.denominator == 1 and abs(v) < 2 ** 31) for v in vals) and not case.get("as_time") and fn != "valid":
+    if vals and all(v is None or (v.denominator == 1 and abs(v) < 2 ** 31) for v in vals) and not case.get("as_time"):
         cars.append("ma_i4")
         if all(v is None or 0 <= v < 256 for v in vals):
             cars.append("ma_u1")
